@@ -181,12 +181,17 @@ def _maxpool(module, grad_input, grad_output):
 		delta_out = torch.cat([delta_out_xmax - output_ref, 
 			output - delta_out_xmax])
 
-		_, indices = pool_func(module.input, module.kernel_size, module.stride, 
-			module.padding, module.dilation, module.ceil_mode, True)
+		# Route the output deltas back to the arg-max positions using the
+		# gradient of the pooling operation itself. Unlike max_unpool, this
+		# accumulates when overlapping windows share an arg-max and handles
+		# dilation and ceil_mode.
+		with torch.enable_grad():
+			input_ = module.input.detach().requires_grad_()
+			output_ = pool_func(input_, module.kernel_size, module.stride, 
+				module.padding, module.dilation, module.ceil_mode)
+			unpool_ = torch.autograd.grad(output_, input_, 
+				grad_outputs=grad_output[0] * delta_out)[0]
 
-		unpool_ = unpool_func(grad_output[0] * delta_out, indices, 
-			module.kernel_size, module.stride, module.padding, 
-			list(module.input.shape))
 		unpool_delta, unpool_ref_delta = torch.chunk(unpool_, 2)
 
 	unpool_delta_ = unpool_delta + unpool_ref_delta
